@@ -440,7 +440,7 @@ def accessors(cx, rule='GETITEM'):
         fn = Fn(cx, 'io.FCSData.' + m)
         body = [s for s in fn.ast.body if not (isinstance(s, ast.Expr) and isinstance(s.value, ast.Constant))]
         got = sym.norm_block(body)
-        want = sym.norm_block(ast.parse(spec.replace('ATTR', a)).body)
+        want = sym.norm_block(sym.parse_block(spec.replace('ATTR', a)))
         ok = got == want
         n += 1
         fn.ob(rule, 'accessor %s() returns %s of exactly the asked channels, in the asked order' % (m, a), ok, fn.ast,
